@@ -87,8 +87,8 @@ impl Prop for C19 {
         match (tier, build) {
             (Tier::Quick, "fast") => 5_000,
             (Tier::Quick, _) => 2_000,
-            (Tier::Thorough, "fast") => 100_000,
-            (Tier::Thorough, _) => 30_000,
+            (Tier::Thorough, "fast") => 40_000,
+            (Tier::Thorough, _) => 10_000,
         }
     }
     fn rule(&self) -> &'static str {
